@@ -280,7 +280,7 @@ def main():
         ],
         "checks": checks,
         "not_applicable": na,
-        "notes": "Known defects and repairs are listed in known_findings.json; DESIGN.md explains the approach; seeded/ holds independently written breaking changes and seeded/results.json what the checks reported on them.",
+        "notes": "Known defects and repairs are listed in known_findings.json; DESIGN.md explains the approach; seeded/ holds independently written breaking changes and seeded/results_seed1.json what the checks reported on them under VERIF_SEED=1.",
     }
     with open(os.path.join(VERIF, "MANIFEST.json"), "w") as fh:
         json.dump(man, fh, indent=1)
